@@ -931,3 +931,34 @@ def audit_generated(rep, rule, bodies, audited, method_of):
         else:
             s = ent['site']
             rep.bad(rule, key, ent['loc'], 'generated code: %s %s %s (%d sites in the corpus output, e.g. in %s)' % (s.kind, short(s.what), s.detail, ent['n'], s.body.key[:100]))
+
+
+def tight_guards(rep, rule, bodies):
+    """a bounds guard that is stricter than the operation needs (`len >= remaining -> Err` before taking `len` bytes) keeps
+    the decoder total but makes it reject a value that ends exactly at the end of the input: every partial operation
+    discharged by a dominating comparison must be discharged by a non-strict one (n <= remaining)"""
+    n = 0
+    for b in bodies:
+        for s in collect_sites(b, ('partial',)):
+            con = getattr(s, 'contract', None)
+            if not con or con[0] not in ('len_arg', 'fixed'):
+                continue
+            args = s.cs.args()
+            need = args[con[2]] if con[0] == 'len_arg' else ('const', con[2])
+            g = guard_for_len(b, s.bb, need, args[con[1]])
+            if not g:
+                continue
+            n += 1
+            op, ga, gb = g[0], g[1], g[2]
+            key = '%s|%s|%s|guard' % (rule, b.id, short(s.what))
+            strict = False
+            if op == 'Lt' and is_len_of(gb, args[con[1]]):
+                strict = True           # n < remaining
+            if op == 'Gt' and is_len_of(ga, args[con[1]]):
+                # remaining > k is exactly enough for k + 1 bytes
+                strict = not (gb[0] == 'const' and need[0] == 'const' and gb[1] == need[1] - 1)
+            if strict:
+                rep.bad(rule, key, s.loc(), '%s in %s is guarded by the strict comparison %s %s %s: input in which this value ends exactly at the end of the buffer is rejected although it is complete' % (short(s.what), b.key, show(nosite(ga))[:60], op, show(nosite(gb))[:60]))
+            else:
+                rep.ok(rule, key, 'guard %s is as wide as the operation allows' % op, s.loc())
+    return n
